@@ -62,7 +62,7 @@ package keeper
 //@   modifies Bank
 //@   ensures [C05.refund.amount] err == nil ==> old(has(Order, orderId))
 //@       && has(PaymentAddress, (Order[orderId].PaymentDid != "" ? Order[orderId].PaymentDid : Order[orderId].Owner))
-//@   ensures [C05.refund.bank] err == nil && addr(PaymentAddress[(Order[orderId].PaymentDid != "" ? Order[orderId].PaymentDid : Order[orderId].Owner)].Address) != moduleAddr("order") ==>
+//@   ensures [C05.refund.bank] [C06.refund.bank] err == nil && addr(PaymentAddress[(Order[orderId].PaymentDid != "" ? Order[orderId].PaymentDid : Order[orderId].Owner)].Address) != moduleAddr("order") ==>
 //@       bal(addr(PaymentAddress[(Order[orderId].PaymentDid != "" ? Order[orderId].PaymentDid : Order[orderId].Owner)].Address), Order[orderId].Amount.Denom)
 //@         == old(bal(addr(PaymentAddress[(Order[orderId].PaymentDid != "" ? Order[orderId].PaymentDid : Order[orderId].Owner)].Address), Order[orderId].Amount.Denom)) + Order[orderId].Amount.Amount
 //@       && bal(moduleAddr("order"), Order[orderId].Amount.Denom) == old(bal(moduleAddr("order"), Order[orderId].Amount.Denom)) - Order[orderId].Amount.Amount
@@ -78,7 +78,7 @@ package keeper
 //@   requires has(Order, orderId) && has(DidBalances, Order[orderId].Owner) ==> DidBalances[Order[orderId].Owner].Did == Order[orderId].Owner
 //@   modifies Order[orderId], DidBalances[Order[orderId].Owner], Bank
 //@   ensures [C04.terminate.status] err == nil ==> old(has(Order, orderId)) && old(Order[orderId].Status) == OrderCompleted && !has(Order, orderId)
-//@   ensures [C04.terminate.refund] err == nil && old(has(PaymentAddress, Order[orderId].Owner)) && refundCoin.Amount > 0
+//@   ensures [C04.terminate.refund] [C06.terminate.refund] err == nil && old(has(PaymentAddress, Order[orderId].Owner)) && refundCoin.Amount > 0
 //@       && addr(PaymentAddress[old(Order[orderId].Owner)].Address) != moduleAddr("order") ==>
 //@       bal(addr(PaymentAddress[old(Order[orderId].Owner)].Address), refundCoin.Denom) == old(bal(addr(PaymentAddress[Order[orderId].Owner].Address), refundCoin.Denom)) + refundCoin.Amount
 //@       && bal(moduleAddr("order"), refundCoin.Denom) == old(bal(moduleAddr("order"), refundCoin.Denom)) - refundCoin.Amount
